@@ -71,6 +71,9 @@ func (NetH) Gen(prop string, seed uint64, tier string) *hx.Case {
 	if r.Chance(0.25) {
 		cfg.PCT, cfg.PCTSteps = r.Range(1, 4), []int{1000, 10000, 100000}[r.Intn(3)]
 	}
+	if r.Chance(0.25) {
+		cfg.ChildFirstP = []float64{0.2, 0.6, 1}[r.Intn(3)]
+	}
 	cfg.Peers = 1 + r.Pick(50, 25, 15, 10)
 	var ops []json.RawMessage
 	id := 0
@@ -968,7 +971,7 @@ func (NetH) Run(t *testing.T, c *hx.Case) *hx.Outcome {
 		n.bad = true
 	}
 
-	scfg := simrt.Config{Seed: cfg.SchedSeed, YieldP: cfg.YieldP, TimerP: cfg.TimerP, MaxConsec: cfg.MaxConsec, StepBudget: 80_000_000, PCT: cfg.PCT, PCTSteps: cfg.PCTSteps}
+	scfg := simrt.Config{Seed: cfg.SchedSeed, YieldP: cfg.YieldP, TimerP: cfg.TimerP, MaxConsec: cfg.MaxConsec, StepBudget: 80_000_000, PCT: cfg.PCT, PCTSteps: cfg.PCTSteps, ChildFirstP: cfg.ChildFirstP}
 	now0 := int64(tip.Time) + 600
 	// the catch-all recover in OneConnection.Run reports an escaped panic on standard output: keep it
 	realStdout := os.Stdout
